@@ -46,8 +46,10 @@ def run(ctx):
                 a = f.nodes[f.strip(n["args"][1])]
                 if a["k"] == "StringLiteral" and a["s"] == MARK:
                     sites.append((f, i))
-    ctx.check(len(sites) == 1 and sites[0][0].name == "ovni_thread_free", "R9.1", "marker:single-writer", OV,
-              "'%s' is set in %s" % (MARK, [(f.name, f.loc(i)) for f, i in sites]))
+    free_ok = prog.helper_closure({"ovni_thread_free"}, OV)
+    ctx.check(len(sites) >= 1 and all(f.name in free_ok and f.file == OV for f, i in sites), "R9.1",
+              "marker:single-writer", OV, "'%s' is set in %s, outside ovni_thread_free and its private helpers" %
+              (MARK, [(f.name, f.loc(i)) for f, i in sites if not (f.name in free_ok and f.file == OV)]))
     # generic attribute setters take the key from the caller: they could set the marker early
     # only if the user asks for it; libovni itself passes no such literal (checked above)
     tf = prog.fn("ovni_thread_free", OV)
@@ -59,7 +61,11 @@ def run(ctx):
         if d is None:
             return name in ("write", "pwrite", "fwrite") and False
         return wev.key in {g.key for g in prog.reachable_fns([d])}
-    ex = absint.Explorer(prog, effects=eff, auto_inline=False, loop_bound=2,
+    # private helpers are interpreted (their calls appear in order in the trace of the path); the big
+    # sub-steps stay opaque calls
+    ex = absint.Explorer(prog, effects=eff, loop_bound=2, max_depth=3,
+                         opaque={"move_thdir_to_final", "thread_metadata_store", "flush_evbuf", "set_thread_rank",
+                                 "set_thread_cpus", "write_evbuf"},
                          summaries={"json_value_get_object": lambda ex_, st, args, f, e: [(PTR("META"), {})]})
     store = {(RT, F("ovni_rthread", "ready")): INT(1), (RT, F("ovni_rthread", "finished")): INT(0)}
     outs = [o for o in ex.run(tf, [], store) if o.kind in ("ret", "exit")]
@@ -88,7 +94,7 @@ def run(ctx):
     # reachable from ovni_thread_init
     ti = prog.fn("ovni_thread_init", OV)
     reach = {g.key for g in prog.reachable_fns([ti])}
-    ctx.check(sites and sites[0][0].key not in reach, "R9.1", "marker:not-in-initial-metadata", ti.loc(),
+    ctx.check(sites and not any(f.key in reach for f, i in sites), "R9.1", "marker:not-in-initial-metadata", ti.loc(),
               "the function setting '%s' is reachable from ovni_thread_init" % MARK)
 
     # ---- R9.2 ---------------------------------------------------------------------------
@@ -159,7 +165,7 @@ def run(ctx):
                     "opendir": lambda ex_, st, args, f, e: [(PTR("DIR"), {})],
                     "closedir": lambda ex_, st, args, f, e: [(INT(0), {})]}
             ex2 = absint.Explorer(prog, effects=eff, inline=lambda n, d: d.file == OV and n not in sums,
-                                  summaries=sums, loop_bound=len(order) + 3, max_depth=3)
+                                  summaries=sums, loop_bound=len(order) + 40, max_depth=3)
             outs = ex2.run(mv, [("str", "TMP"), ("str", "FINAL")], {})
             inst = "relocate:readdir=[%s]:failing=%s" % (",".join(x[7:] for x in order), failing and failing[7:])
             ctx.need(all(m[0] for m in moves), "move_thdir_to_final: cannot resolve the path of a moved file (%s)" % moves)
